@@ -453,6 +453,13 @@ fn make_error(code: &str, message: Option<&str>, request_id: Option<&str>, statu
             h.insert("x-amz-bucket-region", http::HeaderValue::from_static("eu-west-1"));
             h.append("x-extra", http::HeaderValue::from_static("1"));
         }
+        if headers > 2 {
+            // one name attached twice (Set-Cookie, WWW-Authenticate ... are legitimately multi-valued), and a header that
+            // collides with one the adapter sets itself
+            h.append("set-cookie", http::HeaderValue::from_static("a=1"));
+            h.append("set-cookie", http::HeaderValue::from_static("b=2"));
+            h.append("x-extra", http::HeaderValue::from_static("2"));
+        }
         e.set_headers(h);
     }
     e
@@ -467,7 +474,7 @@ fn rendering(acc: &mut Acc) {
         for (mi, msg) in messages.iter().enumerate() {
             for rid in [None, Some("r1"), Some("<r&2>")] {
                 for status in [None, Some(418u16)] {
-                    for headers in 0..3usize {
+                    for headers in 0..4usize {
                         for via in ["to_http_response", "backend"] {
                             let id = || format!("render/{code}/msg{mi}/rid={rid:?}/status={status:?}/headers={headers}/{via}");
                             if !a.selected(&id) {
@@ -530,6 +537,13 @@ fn rendering(acc: &mut Acc) {
                             if headers > 1 && (resp.headers.get("x-amz-bucket-region").is_none() || resp.headers.get("x-extra").is_none()) {
                                 bad.push(("headers-dropped".into(), "second/third attached header missing".into()));
                             }
+                            if headers > 2 {
+                                let cookies: Vec<&[u8]> = resp.headers.get_all("set-cookie").iter().map(|v| v.as_bytes()).collect();
+                                let extras: Vec<&[u8]> = resp.headers.get_all("x-extra").iter().map(|v| v.as_bytes()).collect();
+                                if !(cookies.contains(&&b"a=1"[..]) && cookies.contains(&&b"b=2"[..]) && extras.contains(&&b"1"[..]) && extras.contains(&&b"2"[..])) {
+                                    bad.push(("headers-dropped".into(), format!("a header name attached twice lost a value: set-cookie {:?}, x-extra {:?}", cookies.iter().map(|c| String::from_utf8_lossy(c)).collect::<Vec<_>>(), extras.iter().map(|c| String::from_utf8_lossy(c)).collect::<Vec<_>>())));
+                                }
+                            }
                             if resp.headers.get("content-type").is_none() {
                                 // an XML body without a content type is still an S3 error document; recorded only
                                 a.count("error_responses_without_content_type(recorded)", 1);
@@ -556,7 +570,7 @@ pub fn run(ctx: &Ctx) -> (Acc, Report) {
     let k = ctx.tier.pick(2, 3);
     let rep = Report {
         level: "exploration",
-        rule: format!("(a) 13 valid base requests (anonymous GET/HEAD/list, V4 header with unsigned / signed / chunk-signed payload, V4 presigned, V2 header, V2 presigned, POST form, XML PUT, copy, ranged GET) x 16 service configurations x every combination of at most {k} deviations (triples on 2 configurations) out of {n_single} single deviations: 9 methods, 21 paths, 42 queries, 32 interpreted headers x {{absent, empty, garbage, opaque bytes >= 0x80, plausible-but-wrong, duplicated}}, 5 bodies incl. I/O errors, 2 HTTP versions. Oracle: no panic, no hang, Ok(response), and for status >= 400 a well-formed <Error> document whose code has that status in data/s3_error_codes.json. (b) every code of the error table + 2 custom codes x 10 messages x 3 request ids x status override x 3 header maps x {{S3Error::to_http_response, backend error through GetObject}}. Distinct by id."),
+        rule: format!("(a) 13 valid base requests (anonymous GET/HEAD/list, V4 header with unsigned / signed / chunk-signed payload, V4 presigned, V2 header, V2 presigned, POST form, XML PUT, copy, ranged GET) x 16 service configurations x every combination of at most {k} deviations (triples on 2 configurations) out of {n_single} single deviations: 9 methods, 21 paths, 42 queries, 32 interpreted headers x {{absent, empty, garbage, opaque bytes >= 0x80, plausible-but-wrong, duplicated}}, 5 bodies incl. I/O errors, 2 HTTP versions. Oracle: no panic, no hang, Ok(response), and for status >= 400 a well-formed <Error> document whose code has that status in data/s3_error_codes.json. (b) every code of the error table + 2 custom codes x 10 messages x 3 request ids x status override x 4 header maps (none, one, three, one with a name attached twice) x {{S3Error::to_http_response, backend error through GetObject}}. Distinct by id."),
         exhaustive: true,
         extra: json!({"single_deviations": n_single, "error_codes": ERROR_TABLE.len()}),
         assumptions: vec!["a transport failure after an injected body I/O error is not judged (it is a transport problem, not a request problem)".into(), "requests the http crate itself refuses cannot reach the adapter and are outside the space".into(), "messages do not contain a bare carriage return (XML line-end normalisation is C13's subject)".into()],
